@@ -424,13 +424,24 @@ def run(case, rec):
         rec.check(pc["m"] == m, "region-size",
                   f"the solver was given {pc['m']} residuals but the specified fit region has {m} cells; {label}")
         if plain_loss and pc["m"] == m:
-            tol = 1e-9 * max(cost_cand, pc["cost0"]) + 1e-18 * max(1.0, m * (vmax - vmin) ** 2)
-            rec.check(abs(pc["cost0"] - cost_cand) <= tol, "start-cost-agrees",
-                      f"cost at the start seen by the solver {pc['cost0']!r} != deviation of the candidate "
-                      f"over the specified region {cost_cand!r}; {label}")
-            tol = 1e-9 * max(cost_out, pc["cost"]) + 1e-18 * max(1.0, m * (vmax - vmin) ** 2)
-            rec.check(abs(pc["cost"] - cost_out) <= tol, "end-cost-agrees",
-                      f"result.cost {pc['cost']!r} != deviation of the returned droplet {cost_out!r}; {label}")
+            # The solver's objective must be the squared deviation over the specified region up to ONE
+            # positive constant factor q (an implementation may measure residuals in other units, e.g.
+            # of the intensity range): q is read off at the start and must hold at the end as well.
+            floor = 1e-18 * max(1.0, m * (vmax - vmin) ** 2)
+            if cost_cand > 1e6 * floor and pc["cost0"] > 0:
+                q = cost_cand / pc["cost0"]
+                rec.check(np.isfinite(q) and q > 0, "start-cost-agrees",
+                          f"cost at the start seen by the solver {pc['cost0']!r} vs deviation of the candidate over the "
+                          f"specified region {cost_cand!r}: no positive factor relates them; {label}")
+                rng2 = (vmax - vmin) ** 2
+                rec.note_count("solver_cost_units", "deviation" if abs(q - 1) <= 1e-6 else (
+                    "deviation/range^2" if rng2 > 0 and abs(q / rng2 - 1) <= 1e-6 else "other"))
+                tol = 1e-9 * max(cost_out, q * pc["cost"]) + floor
+                rec.check(abs(q * pc["cost"] - cost_out) <= tol, "end-cost-agrees",
+                          f"result.cost {pc['cost']!r} (x {q!r} = {q * pc['cost']!r}) != deviation of the returned droplet "
+                          f"{cost_out!r}; {label}")
+            else:
+                rec.count("start_cost_zero:proportionality_not_checked")
         # the solver's parameter bounds: amplitudes in [-1,1], radius/width >= 0
         if pc["bounds"] is not None:
             lo, hi = pc["bounds"]
